@@ -125,16 +125,29 @@ pub fn run(ctx: &mut Ctx) {
             let mut muts: Vec<(String, Vec<u8>)> = Vec::new();
             muts.push(("truncate".into(), bytes[..off].to_vec()));
             if off < bytes.len() {
-                for v in [0x00u8, 0xFF] {
+                // byte overwrites: extremes, every single-bit flip, small values (a length prefix
+                // shrunk to a tiny number) and neighbours of the original value
+                let orig = bytes[off];
+                let mut vals: Vec<(String, u8)> = vec![("byte=0x00".into(), 0x00), ("byte=0xff".into(), 0xFF)];
+                for k in 0..8u8 {
+                    vals.push((format!("flip{}", k), orig ^ (1 << k)));
+                }
+                for d in 1..=3u8 {
+                    vals.push(("dec".into(), orig.wrapping_sub(d)));
+                    vals.push(("inc".into(), orig.wrapping_add(d)));
+                }
+                let small_max = if ctx.quick() { 12u8 } else { 40u8 };
+                for v in 1..=small_max {
+                    vals.push(("small".into(), v));
+                }
+                let mut seen = std::collections::BTreeSet::new();
+                for (name, v) in vals {
+                    if v == orig || !seen.insert(v) {
+                        continue;
+                    }
                     let mut b = bytes.clone();
                     b[off] = v;
-                    muts.push((format!("byte={:#04x}", v), b));
-                }
-                let flips: Vec<u8> = if ctx.quick() { vec![rng.below(8) as u8, 7] } else { (0..8).collect() };
-                for k in flips {
-                    let mut b = bytes.clone();
-                    b[off] ^= 1 << k;
-                    muts.push((format!("flip{}", k), b));
+                    muts.push((name, b));
                 }
                 // treat the bytes at this offset as a little-endian length field
                 let stride_ok = !ctx.quick() || off % 2 == 0 || *f != Fmt::Json;
